@@ -404,13 +404,16 @@ where
     const LINE_FEED: char = '\n';
     const CARRIAGE_RETURN: char = '\r';
 
+    // The line is appended to `buf`, which can hold the previous fields of the line.
+    let start = buf.len();
+
     match reader.read_line(buf) {
         Ok(0) => Ok(0),
         Ok(n) => {
             if buf.ends_with(LINE_FEED) {
                 buf.pop();
 
-                if buf.ends_with(CARRIAGE_RETURN) {
+                if buf[start..].ends_with(CARRIAGE_RETURN) {
                     buf.pop();
                 }
             }
